@@ -124,6 +124,20 @@ func c15Run(w *W, c Case) {
 				if rng.Intn(2) == 0 {
 					n = -n
 				}
+				if (j+start)%63 == 0 {
+					// very large plain steps (hundreds of years), both signs
+					for _, big := range []int{1000, -1000, 25000, -25000, 60000, -60000} {
+						if j+7*big < ref.MinJDN+7 || j+7*big > ref.MaxJDN-7 {
+							continue
+						}
+						r := wk.Next(big, false)
+						ey, em, ed := ref.FromJDN(j + 7*big)
+						if r.GetYear() != ey || r.GetMonth() != em || r.GetDay() != ed {
+							w.Violatef("week-next", fmt.Sprintf("%s%+d/plain", key, big), "Next(%d,false) from %s = %d-%d-%d, 7n days later is %s", big, ymd(cy, cm, cd), r.GetYear(), r.GetMonth(), r.GetDay(), ymd(ey, em, ed))
+						}
+						w.Eval(1)
+					}
+				}
 				if j+7*n >= ref.MinJDN+7 && j+7*n <= ref.MaxJDN-7 {
 					nk := fmt.Sprintf("%s%+d", key, n)
 					w.Cur("C15 week nav " + nk)
